@@ -291,6 +291,8 @@ int main (void)
 {
   char *line = NULL; size_t cap = 0; ssize_t got;
   int have_server = 0;
+  static char obuf[1 << 16];
+  setvbuf (stdout, obuf, _IOFBF, sizeof obuf);   /* one flush per result line: a crash never leaves a partial line */
   while ((got = getline (&line, &cap, stdin)) > 0)
     {
       char *rest;
@@ -305,6 +307,7 @@ int main (void)
       else if (!strcmp (line, "t")) run_history (0, rest);
       else if (line[0] == 0) printf ("\n");
       else printf ("?unknown-command\n");
+      fflush (stdout);
     }
   free (line);
   fflush (stdout);
